@@ -91,6 +91,19 @@ func NewTimer(d Duration) *Timer {
 	return t
 }
 
+// Reset restarts the timer (go 1.23 semantics: a tick that fired before the
+// Reset and was not received is discarded).
+func (t *Timer) Reset(d Duration) bool {
+	if t.real != nil {
+		return t.real.Reset(d)
+	}
+	select {
+	case <-t.c:
+	default:
+	}
+	return true
+}
+
 func (t *Timer) Stop() bool {
 	if t.real != nil {
 		return t.real.Stop()
